@@ -363,6 +363,15 @@ impl Check for C04 {
                 }
                 Op::SessionRerun => {
                     // once more without a new text; defined for a one-line text (it is evaluated again)
+                    if !x.last_lines.contains_key(&ev.actor) && x.l.sessions.contains_key(&ev.actor) {
+                        // before any text was set
+                        let (o, _) = x.l.session_rerun(ev.actor, &ev.clock);
+                        let (o2, _) = x.reps.get_mut(&ev.actor).unwrap().session_rerun(ev.actor, &ClockScript::Frozen { t });
+                        rep.count("session.evaluated_before_any_text");
+                        rep.judged += 1;
+                        if o != o2 { rep.violate("O-projection", format!("session-rerun-differs:{}", diff_kind(&o, &o2)), ei, format!("evaluating a session that has no text yet gave {} on the long-lived calculator but {} on the replica", o.short(), o2.short())); }
+                        continue;
+                    }
                     if x.last_lines.get(&ev.actor) != Some(&1) || !x.l.sessions.contains_key(&ev.actor) { continue; }
                     let calls_before = x.l.log.borrow().len();
                     let (o, clk) = x.l.session_rerun(ev.actor, &ev.clock);
